@@ -399,7 +399,7 @@ func (q *TransmitLimitedQueue) Prune(maxRetain int) {
 	defer q.mu.Unlock()
 
 	// Do nothing if queue size is less than the limit
-	for q.tq.Len() > maxRetain {
+	for q.lenLocked() > maxRetain {
 		item := q.tq.Max()
 		if item == nil {
 			break
